@@ -18,7 +18,10 @@ import (
 
 func init() { commands["c07"] = c07 }
 
-type discardCount struct{ n int ; last int }
+type discardCount struct {
+	n    int
+	last int
+}
 
 func (d *discardCount) Write(p []byte) (int, error) { d.n++; d.last = len(p); return len(p), nil }
 
